@@ -328,29 +328,48 @@ def parse_cbmc_json(txt):
     return res, msgs
 
 
+EXTRA_INPUT_VECTORS = {}   # id(primary vector) -> alternative vector recovered from the nondet return values
+
+
 def extract_inputs(trace):
-    vals = {}
+    """Input vector of a counterexample. Primary source: the verif_in[] log written by in_u64(). SMT back ends (z3/cvc5) may
+    leave that property-irrelevant log unconstrained (zeros) or slice it away, so a second candidate is built from the return
+    values of nondet_u64() (in_u64() is its only caller): the last return value seen before each log entry. The replay tries
+    the log first, then the alternative."""
+    vals, alt = {}, {}
     n = None
+    last_ret = None
+    rets = []
     for st in trace:
         if st.get('stepType') != 'assignment':
             continue
         lhs = st.get('lhs', '')
-        m = re.fullmatch(r'verif_in\[(\d+)l?l?\]', lhs)
         v = st.get('value', {})
-        if m and 'binary' in v:
+        if 'binary' not in v:
+            continue
+        if lhs == 'return_value_nondet_u64':
+            last_ret = int(v['binary'], 2)
+            rets.append(last_ret)
+            continue
+        m = re.fullmatch(r'verif_in\[(\d+)l?l?\]', lhs)
+        if m:
             vals[int(m.group(1))] = int(v['binary'], 2)
-        elif lhs == 'verif_in_n' and 'binary' in v:
+            if last_ret is not None:
+                alt[int(m.group(1))] = last_ret
+        elif lhs == 'verif_in_n':
             n = int(v['binary'], 2)
     if n is None:
         n = (max(vals) + 1) if vals else 0
     if not vals:
-        # SMT back ends with --slice-formula drop the (property-irrelevant) verif_in[] log; in_u64() is the only caller of
-        # nondet_u64(), so the ordered return values of nondet_u64 are the same input vector
-        seq = [int(st['value']['binary'], 2) for st in trace if st.get('stepType') == 'assignment'
-               and st.get('lhs', '') == 'return_value_nondet_u64' and 'binary' in st.get('value', {})]
-        if seq:
-            return seq[:512]
-    return [vals.get(i, 0) for i in range(min(n, 512))]
+        # log sliced away: the ordered return values are the vector (the trace may list each call twice: initialisation 0, value)
+        if rets and len(rets) % 2 == 0 and all(x == 0 for x in rets[0::2]):
+            rets = rets[1::2]
+        return rets[:512]
+    log_vec = [vals.get(i, 0) for i in range(min(n, 512))]
+    alt_vec = [alt.get(i, vals.get(i, 0)) for i in range(min(n, 512))]
+    if alt_vec != log_vec:
+        EXTRA_INPUT_VECTORS[id(log_vec)] = alt_vec
+    return log_vec
 
 
 def run_cbmc(unit, q, work, tier):
@@ -589,6 +608,11 @@ def main():
                         continue
                     rp = os.path.join(VERIF, 'replay', '%s-%s.txt' % (pid, q.name))
                     rep, out, err = replay_inputs(u, q, work, c['inputs'], rp, 'property=%s query=%s cbmc: %s' % (pid, q.name, c['description']))
+                    alt = EXTRA_INPUT_VECTORS.get(id(c['inputs']))
+                    if not rep and alt:
+                        rep, out, err = replay_inputs(u, q, work, alt, rp, 'property=%s query=%s cbmc: %s' % (pid, q.name, c['description']))
+                        if rep:
+                            c['inputs'] = alt
                     c['replay_output'] = (out[-600:] + err[-1200:])
                     if rep:
                         confirmed = (c, rp); break
